@@ -36,10 +36,11 @@
     MISSING: [spelling_irrelevant].  It follows from [parse_spell] once the evaluator model
     (Model/XPathEval.v, property C05) is shown to respect [≈]; until then that half is
     established by the failing-input search of checks/C08.py on the real [query] (every
-    generated spelling pair is evaluated on documents).  Also not proved: that [abbreviate]
-    (every abbreviation that applies, Spec/XPathSyntax.v) yields a derivable, equivalent tree --
-    the check validates it on every generated tree; for [paren] (minimal parentheses) this IS
-    proved: [every_tree_has_a_spelling], [parse_spell_minimal]. *)
+    generated spelling pair is evaluated on documents).  The two canonical
+    spellings computed by Spec/XPathSyntax.v ARE proved to be spellings: [paren] (minimal
+    parentheses: [every_tree_has_a_spelling], [parse_spell_minimal]) and [abbreviate] (every
+    abbreviation that applies: [parse_spell_abbreviated]); [spellings_agree] is the syntactic half
+    of [spelling_irrelevant]. *)
 From Coq Require Import List NArith Arith Bool.
 From XmlRs Require Import Base.CPred Spec.XPathSyntax Model.Peg Model.XPathAst
   Model.ParseActionsXPath Model.XPathAstAbs Proofs.XPathParseExpr Proofs.XPathParseMain Proofs.XPathSyntaxLemmas Proofs.XPathParsePrecedence Proofs.XPathParseTotal.
@@ -86,6 +87,20 @@ Theorem parse_spell_minimal : forall (a : xexpr) (w : wtree),
   leaves_ok a = true -> no_fname_case a = true -> ws_ok w = true ->
   exists e, parse_expr (spell_surface (paren a) w) = POk e [] /\ abs_or e ≈ a.
 Proof. exact parse_spell_minimal_proof. Qed.
+
+(** abbreviated against unabbreviated: spelling a derivable tree with every abbreviation that
+    applies gives a string that parses to an equivalent tree *)
+Theorem parse_spell_abbreviated : forall (a : xexpr) (w : wtree),
+  wfb a = true -> no_fname_case a = true -> ws_ok w = true ->
+  exists e, parse_expr (spell_surface (abbreviate a) w) = POk e [] /\ abs_or e ≈ a.
+Proof. exact parse_spell_abbreviated_proof. Qed.
+
+(** any two spellings of one tree are accepted completely and parse to equivalent trees *)
+Theorem spellings_agree : forall a sp1 sp2,
+  ok_spelling a sp1 -> ok_spelling a sp2 ->
+  no_fname_case (surface sp1) = true -> no_fname_case (surface sp2) = true ->
+  exists e1 e2, parse_expr (spell a sp1) = POk e1 [] /\ parse_expr (spell a sp2) = POk e2 [] /\ abs_or e1 ≈ abs_or e2.
+Proof. exact spellings_agree_proof. Qed.
 
 (** rung 1 of the ladder *)
 Theorem parse_spell_surface_operators : forall (a : xexpr) (w : wtree),
@@ -158,6 +173,8 @@ Print Assumptions parse_spell_surface.
 Print Assumptions parse_spell.
 Print Assumptions every_tree_has_a_spelling.
 Print Assumptions parse_spell_minimal.
+Print Assumptions parse_spell_abbreviated.
+Print Assumptions spellings_agree.
 Print Assumptions parse_spell_surface_operators.
 Print Assumptions parse_spell_partial_operators.
 Print Assumptions precedence_right.
